@@ -156,6 +156,9 @@ static void gen_c03_extended(std::vector<Case>& cases) {
     { gen::Spend S = gen::make_spend("p2pk", sh);
       mk("conditional spanning scriptSig and scriptPubKey", S, [&](Tx& f, Tx& t) { f.vout[1].spk = unhex("6851"); t.vin[1].prev_hash = txid(f); t.vin[1].script_sig = unhex("5163"); });
       mk("altstack carried from scriptSig to scriptPubKey", S, [&](Tx& f, Tx& t) { f.vout[1].spk = unhex("6c"); t.vin[1].prev_hash = txid(f); t.vin[1].script_sig = unhex("516b"); }); }
+    // P2SH-shaped funding output whose hash push is 19 / 21 bytes, spent as if it were a wrapped witness program
+    for (int hl : {19, 21}) { gen::Spend S = gen::make_spend("p2sh-p2wpkh", sh);
+      mk("P2SH-shaped output with a " + std::to_string(hl) + "-byte hash under a wrapped witness program", S, [&](Tx& f, Tx& t) { bytes spk{0xa9, uint8_t(hl)}; spk.insert(spk.end(), size_t(hl), 0x33); spk.push_back(0x87); f.vout[1].spk = spk; t.vin[1].prev_hash = txid(f); }); }
     // 521-byte witness item for a P2WSH script that drops it
     { gen::Spend S = gen::make_spend("p2wsh-checksig", sh);
       mk("521-byte witness stack item", S, [&](Tx& f, Tx& t) { bytes ws = unhex("7551"); f.vout[1].spk = gen::p2wsh_spk(ws); t.vin[1].prev_hash = txid(f); t.vin[1].witness = {bytes(521, 7), ws}; }); }
